@@ -943,6 +943,9 @@ func (it *Interp) mapLookup(fr *frame, m *MapObj, k Value) (Value, bool) {
 }
 
 func (it *Interp) mapJournal(m *MapObj) {
+	if it.spec > 0 && (m.obj == nil || m.obj.id <= it.specBase) {
+		panic(specFail{"map update of outer map"})
+	}
 	if m.obj != nil && m.obj.frozen {
 		it.event(it.curFrame, "write-to-frozen", "map")
 	}
